@@ -10,11 +10,11 @@ import (
 )
 
 type specTable struct {
-	states []rjvSpecLocal
-	id     map[rjvSpecLocal]int
-	stepq  [][256]int // successor id; for pops the entry is specPopMark
-	stepop [][256]int
-	endb   [][256]bool
+	states  []rjvSpecLocal
+	id      map[rjvSpecLocal]int
+	stepq   [][256]int // successor id; for pops the entry is specPopMark
+	stepop  [][256]int
+	endb    [][256]bool
 	prelude string
 }
 
